@@ -4,8 +4,9 @@ import os
 import sys
 
 VERIF = os.path.dirname(os.path.dirname(os.path.abspath(__file__)))
-if '/repo' not in sys.path:
-    sys.path.insert(0, '/repo')
+REPO = os.environ.get('VERIF_REPO', '/repo')    # the tree under test (a scratch worktree when trying seeded changes)
+if REPO not in sys.path:
+    sys.path.insert(0, REPO)
 
 from mpf.tests.MpfTestCase import MpfTestCase  # noqa: E402
 from mpf.tests.MpfFakeGameTestCase import MpfFakeGameTestCase  # noqa: E402
